@@ -268,7 +268,7 @@ def timers(cx):
     cx.check(okh and oke and allr, "tick:dispatch", "tick(): leaders run the heartbeat tick, every other role the election tick")
 
 
-@obligation("FLOW.uncommitted", ["C13"], floor=3, kind="return shape + order",
+@obligation("FLOW.uncommitted", ["C10", "C13"], floor=3, kind="return shape + order",
             why="proposals must be refused beyond max_uncommitted_size, but one is always admitted when nothing is outstanding and empty payloads never refused")
 def uncommitted(cx):
     f = cx.fn("UncommittedState::maybe_increase_uncommitted_size")
@@ -305,6 +305,102 @@ def uncommitted(cx):
             require(cx, c, cx.site_key(c, "admitted"), "the leader appends proposals only after the uncommitted-size admission succeeded", admitted, kill=False)
     bl = [s for s in cx.prog.writes.get("UncommittedState.uncommitted_size", []) if "stmt" in s.data and write_value(cx, s) == ("int", 0) and any(x.fn is s.fn for x in cx.prog.writes.get(STATE, []))]
     cx.check(bool(bl), "leader-reset", "becoming leader zeroes the uncommitted size")
+
+
+TAIL = "UncommittedState.last_log_tail_index"
+UNC = "UncommittedState.uncommitted_size"
+
+
+@obligation("FLOW.uncommitted_tail", ["C10", "C13"], floor=4, kind="who-may-write + value shape + order",
+            why="entries inherited from an earlier term were never charged to this leader's budget; releasing them when they are handed out makes the leader under-count and exceed max_uncommitted_size")
+def uncommitted_tail(cx):
+    from ..engine import operand_read_before
+    from ..idioms import closure_returns
+    n = 0
+    # (a) the only writer is the leader transition; the value is the last index BEFORE the leader's empty entry
+    ws = [s for s in cx.prog.writes.get(TAIL, []) if "stmt" in s.data]
+    cx.check(len(ws) == 1, "writers", "last_log_tail_index is assigned at one site (found %d)" % len(ws))
+    for s in ws:
+        key = cx.site_key(s, "write:" + TAIL)
+        cx.check(any(x.fn is s.fn and "stmt" in x.data and write_value(cx, x) == ("enum", "raft::raft::StateRole", "Leader") for x in cx.prog.writes.get(STATE, [])), key + ":where", "it is assigned in the leader transition", s)
+        v = write_value(cx, s)
+        ok = v[0] == "call" and v[1].endswith("RaftLog::last_index")
+        before = operand_read_before(cx, s.fn, s.data["stmt"]["rv"].get("use", {}), "Raft::append_entry", strict=True)
+        cx.check(ok and bool(before), key, "last_log_tail_index := last_index() taken before the new leader appends its empty entry (found %s)" % show(v), s, value=show(v))
+        n += 1
+    # (b) the release skips exactly the entries at or below that index and sums payload bytes of the rest
+    f = cx.fn("UncommittedState::maybe_reduce_uncommitted_size")
+    cx.check(f is not None, "release:fn", "the release function exists")
+    if f is None:
+        return
+    g = cx.pg(f)
+    name = fn_name(f)
+    sizes = set()
+    for lits, v, b in g.returns(limit=2000):
+        for l in lits:
+            if l[0] == "is" and l[1][0] == "bin" and l[1][1] == "Lt" and is_f(l[1][2], UNC):
+                sizes.add(l[1][3])
+    cx.check(len(sizes) == 1, name + ":size", "the released size is compared with the outstanding size (uncommitted_size < size)")
+    for size in sizes:
+        closures = [x for x in walk(size) if x[0] == "closure"]
+        skip = [x for x in walk(size) if x[0] == "call" and (x[1].endswith("::skip_while") or x[1].endswith("::filter"))]
+        cx.check(len(skip) == 1, name + ":skip", "entries up to last_log_tail_index are skipped before summing (found %s)" % show(size)[:160])
+        for sk in skip:
+            cl = [a for a in sk[2] if a[0] == "closure"]
+            ok = False
+            if len(cl) == 1:
+                caps = dict(cl[0][2])
+                rets = closure_returns(cx.prog, cl[0][1])
+                if rets and len(rets) == 1 and not rets[0][0]:
+                    r = rets[0][1]
+                    def is_idx(e):
+                        return any(x[0] == "field" and x[2].endswith("Entry.index") for x in walk(e)) or any(x[0] == "call" and x[1].endswith("Entry::get_index") for x in walk(e))
+                    def is_tail(e):
+                        return (e[0] == "upvar" and is_f(caps.get(e[1], ("?",)), TAIL)) or is_f(e, TAIL)
+                    # index <= tail   or   !(tail < index)
+                    if r[0] == "bin" and r[1] == "Le" and is_idx(r[2]) and is_tail(r[3]):
+                        ok = True
+                    if r[0] == "bin" and r[1] == "Ge" and is_tail(r[2]) and is_idx(r[3]):
+                        ok = True
+                    if r[0] == "not" and r[1][0] == "bin" and r[1][1] == "Lt" and is_tail(r[1][2]) and is_idx(r[1][3]):
+                        ok = True
+                    if r[0] == "not" and r[1][0] == "bin" and r[1][1] == "Gt" and is_idx(r[1][2]) and is_tail(r[1][3]):
+                        ok = True
+                    if sk[1].endswith("::filter"):
+                        # keep-predicate: the complement
+                        ok = (r[0] == "bin" and r[1] == "Gt" and is_idx(r[2]) and is_tail(r[3])) or (r[0] == "bin" and r[1] == "Lt" and is_tail(r[2]) and is_idx(r[3]))
+                    shown = show(r)
+                else:
+                    shown = "several paths"
+            else:
+                shown = "no closure"
+            cx.check(ok, name + ":skip-pred", "skipped while entry.index <= last_log_tail_index (found %s)" % shown)
+            n += 1
+        # what is summed: payload length of each remaining entry
+        mp = [x for x in walk(size) if x[0] == "call" and x[1].endswith("::map")]
+        okm = False
+        for m in mp:
+            for a in m[2]:
+                if a[0] == "closure":
+                    rets = closure_returns(cx.prog, a[1])
+                    if rets and len(rets) == 1:
+                        r = rets[0][1]
+                        okm = r[0] == "call" and r[1].endswith("::len") and any(x[0] == "field" and x[2].endswith("Entry.data") for x in walk(r))
+        cx.check(okm, name + ":bytes", "the released size is the sum of the payload lengths")
+        n += 1
+        # the counter saturates at zero, else decreases by exactly that size
+        for s in [x for x in cx.prog.writes.get(UNC, []) if x.fn is f and "stmt" in x.data]:
+            v = write_value(cx, s)
+            lits = cx.guard_lits(s)
+            under = any(l[0] == "is" and l[2] is True and l[1] == ("bin", "Lt", l[1][2], size) and is_f(l[1][2], UNC) for l in lits if l[1][0] == "bin")
+            fits = any(l[0] == "is" and l[2] is False and l[1] == ("bin", "Lt", l[1][2], size) and is_f(l[1][2], UNC) for l in lits if l[1][0] == "bin")
+            if v == ("int", 0):
+                cx.check(under, cx.site_key(s, "saturate"), "the counter is zeroed only when more is released than is outstanding", s)
+            else:
+                okv = v[0] == "bin" and v[1] == "Sub" and is_f(v[2], UNC) and v[3] == size
+                cx.check(okv and fits, cx.site_key(s, "decrease"), "otherwise the counter decreases by exactly the released size (found %s)" % show(v)[:120], s)
+            n += 1
+    cx.check(n >= 4, "floor", "tail-index sites were found")
 
 
 @obligation("FLOW.transitions", ["C04", "C10", "C13", "C15"], floor=5, kind="effect shape (object-flow fragments)",
